@@ -925,6 +925,7 @@ def block_level_page_break(sibling_before, sibling_after):
                 ('page', 'avoid'),
                 ('page', 'avoid-page'),
                 ('page', 'avoid-column'),
+                ('page', 'column'),
                 ('column', 'auto'),
                 ('column', 'avoid'),
                 ('column', 'avoid-page'),
